@@ -344,6 +344,10 @@ func (db *MultiBucketBackend) BucketExists(name string) (exists bool, err error)
 }
 
 func (db *MultiBucketBackend) HeadObject(bucketName, objectName string) (*gofakes3.Object, error) {
+	if !validObjectKey(objectName) {
+		return nil, gofakes3.KeyNotFound(objectName)
+	}
+
 	db.lock.Lock()
 	defer db.lock.Unlock()
 
@@ -383,6 +387,10 @@ func (db *MultiBucketBackend) HeadObject(bucketName, objectName string) (*gofake
 }
 
 func (db *MultiBucketBackend) GetObject(bucketName, objectName string, rangeRequest *gofakes3.ObjectRangeRequest) (obj *gofakes3.Object, rerr error) {
+	if !validObjectKey(objectName) {
+		return nil, gofakes3.KeyNotFound(objectName)
+	}
+
 	db.lock.Lock()
 	defer db.lock.Unlock()
 
@@ -452,6 +460,10 @@ func (db *MultiBucketBackend) PutObject(
 	input io.Reader, size int64,
 ) (result gofakes3.PutObjectResult, err error) {
 
+	if !validObjectKey(objectName) {
+		return result, errUnsupportedKey(objectName)
+	}
+
 	// Read and validate the complete upload (declared size, Content-MD5) before
 	// the destination is touched: a rejected or interrupted upload must leave
 	// the previously stored object as it was.
@@ -480,6 +492,10 @@ func (db *MultiBucketBackend) PutObject(
 	objectPath := path.Join(bucketName, objectName)
 	objectFilePath := filepath.FromSlash(objectPath)
 	objectDir := filepath.Dir(objectFilePath)
+
+	if keyPathConflict(db.bucketFs, bucketName, objectPath) {
+		return result, errUnsupportedKey(objectName)
+	}
 
 	if objectDir != "." {
 		if err := db.bucketFs.MkdirAll(objectDir, db.dirMode); err != nil {
@@ -553,7 +569,17 @@ func (db *MultiBucketBackend) DeleteObject(bucketName, objectName string) (resul
 }
 
 func (db *MultiBucketBackend) deleteObjectLocked(bucketName, objectName string) error {
+	if !validObjectKey(objectName) {
+		// no object can be stored under such a key: nothing to delete
+		return nil
+	}
+
 	fullPath := path.Join(bucketName, objectName)
+
+	if stat, err := db.bucketFs.Stat(filepath.FromSlash(fullPath)); err == nil && stat.IsDir() {
+		// a directory is the common prefix of other keys, not an object
+		return nil
+	}
 
 	// S3 does not report an error when attemping to delete a key that does not exist, so
 	// we need to skip IsNotExist errors.
